@@ -22,7 +22,7 @@ LEVEL = "exploration"
 DESIGN_REF = "DESIGN.md §5 C02"
 RULE = ("case = one point of the union of three complete sub-lattices (method / placement / subset, see module "
         "docstring) over parameter placement (dense leaf, dense derived P P^H + I, matrix-free with/without rmv, "
-        "matrix-free Hermitian derived, sum sharing one leaf, sum of two, matmul, scaled, adjoint, operator with an "
+        "matrix-free Hermitian derived, sum sharing one leaf, sum of two, matmul, sum / matmul with a dense-wrapped child, scaled, adjoint, operator with an "
         "unused declared parameter, Jacobian operator of an EditableModule method / of a plain function) x forward "
         "method (6) x backward method (default, exactsolve, cg, bicgstab, gmres, broyden1; explicit tight "
         "tolerances in bck_options) x {no E, E, E+M, M only} x E dtype x batch pattern x {float64, complex128} x "
@@ -48,7 +48,7 @@ BUDGET_S = {"quick": 400, "thorough": 3000}
 FWD = ["exactsolve", "custom_exactsolve", "cg", "bicgstab", "gmres", "broyden1"]
 BCK = ["default", "exactsolve", "cg", "bicgstab", "gmres", "broyden1"]
 PLACEMENTS = ["dense_leaf", "dense_derived", "mf_leaf", "mf_leaf_mv", "mf_derived", "add_shared", "add_two",
-              "matmul", "scale", "adj", "mf_unused", "jac_mod", "jac_fn"]
+              "matmul", "scale", "adj", "mf_unused", "jac_mod", "jac_fn", "add_dense", "matmul_dense"]
 JACS = ("jac_mod", "jac_fn")
 HERM_PL = ("dense_derived", "mf_derived")
 LEAF_PL = ("dense_leaf", "mf_leaf", "mf_leaf_mv", "mf_unused")      # the operator holds the leaf tensor itself
@@ -294,6 +294,19 @@ def build(cfg):
             q = leaf("Q", 0.5 * a0 - s, "A")
             adense = lambda: p + q
             mkA = lambda: sc.OpMVR(p) + sc.OpFull(q)
+        elif place == "add_dense":
+            # composed operator with a dense-wrapped (LinearOperator.m) child next to a matrix-free one
+            s = 0.3 * sc._fixed(n, dt, 11)
+            p = leaf("P", 0.5 * a0 + s, "A")
+            q = leaf("Q", 0.5 * a0 - s, "A")
+            adense = lambda: p + q
+            mkA = lambda: sc.OpMVR(p) + LinearOperator.m(q, is_hermitian=False)
+        elif place == "matmul_dense":
+            gm = eye + 0.4 * sc._fixed(n, dt, 12)
+            p = leaf("P", gm, "A")
+            q = leaf("Q", torch.linalg.solve(gm, a0), "A")
+            adense = lambda: p @ q
+            mkA = lambda: LinearOperator.m(p, is_hermitian=False).matmul(sc.OpMVR(q))
         elif place == "matmul":
             gm = eye + 0.4 * sc._fixed(n, dt, 12)
             p = leaf("P", gm, "A")
